@@ -136,7 +136,8 @@ def ctx_opts(cx):
 
 # ------------------------------------------------------------------ attribute classes of Emitter.tla
 SCALAR_TEXT = {'empty': '', 'word': 'a', 'words': 'a b', 'multiline': 'a\nb', 'lead': ' a', 'trail': 'a ', 'ind': '- a',
-               'nonascii': '\xe9', 'nl': 'a\n', 'nlnl': 'a\n\n', 'long': 'aaa bbb cc', 'docsep': '---', 'x': 'x'}
+               'nonascii': '\xe9', 'nl': 'a\n', 'nlnl': 'a\n\n', 'long': 'aaa bbb cc', 'docsep': '---', 'x': 'x',
+               'dashkey': '--- a', 'dotkey': '... a', 'dotsfold': 'aaaaaa ... b', 'dashfold': 'aaaaaa ---'}
 ANCHOR = {'': [None], 'a1': ['a1', 'x-1', 'A_b'], 'a2': ['a2', 'y', 'Z9'], 'bad': ['a b', '\xe9', 'a*'], 'empty': ['']}
 TAG = {'': [None], '!': ['!'], 'local': ['!f', '!foo', '!a/b'], 'core': ['tag:yaml.org,2002:s', 'tag:yaml.org,2002:str', 'tag:yaml.org,2002:int'],
        'uri': ['t:\xe9', 'tag:\xe9.org,2000:x y', 't:\u4e2d<'], 'hdl': ['t:h1:x', 't:h1:x', 't:h1:x'], 'hu': ['t:\xe9:x', 't:\xe9:x', 't:\xe9:x'],
